@@ -370,6 +370,11 @@ def cds_layouts(thorough):
     # a longer two-exon and a three-exon layout with a 0-bp gap, always included
     yield ((2, 12), (15, 26))
     yield ((3, 10), (10, 17), (21, 30))
+    # exons shorter than a codon (1 and 2 bases), first, inner and last
+    yield ((4, 5), (8, 17))
+    yield ((4, 12), (15, 16))
+    yield ((4, 10), (13, 14), (17, 25))
+    yield ((4, 9), (12, 14), (17, 24))
 
 
 def rk_interpreted(ctx):
